@@ -12,7 +12,7 @@ theorem hinv_init (m n : Nat) : HInv m (init m n) := by
   · intro _; simp [init]
   · intro c
     simp [holders, nCallers, nFree, nInbox, nOrphan, init, List.countP_replicate, heldBy]
-  · intro c x h; simp [init] at h
+  · intro _ c x h; simp [init] at h
   · intro c _
     simp [holders, nCallers, nFree, nInbox, nOrphan, init, List.countP_replicate, heldBy]
 
@@ -27,10 +27,23 @@ theorem hinv_step {cfg : Cfg} (hg : Good cfg) {m : Nat} {s s' : State} (a : Acti
       split at h
       · rename_i hp
         cases h
-        apply hinv_move hI i x .start hx rfl rfl rfl rfl (by simp [hp]) (by simp) (fun _ => 0) (fun _ _ _ _ => rfl)
-        intro c; simp only [hp, held_none_start, held_none_idle] <;> omega
+        cases hcl : s.closed with
+        | true =>
+          simp only [if_true]
+          apply hinv_move hI i x .done hx rfl rfl rfl rfl (by simp [hp]) (by simp) rfl (fun _ => 0) (fun _ _ _ _ _ => rfl)
+          intro c; simp only [hp, held_none_done, held_none_idle] <;> omega
+        | false =>
+          simp only [Bool.false_eq_true, if_false]
+          apply hinv_move hI i x .start hx rfl rfl rfl rfl (by simp [hp]) (by simp) rfl (fun _ => 0) (fun _ _ _ _ _ => rfl)
+          intro c; simp only [hp, held_none_start, held_none_idle] <;> omega
       · cases h
     · cases h
+  | closeDC =>
+    simp only [step] at h
+    split at h
+    · cases h
+    · cases h
+      exact ⟨hI.maxc, hI.tot, hI.lim, hI.one, fun hc => Bool.noConfusion hc, hI.dang⟩
   | enter i =>
     simp only [step, markDeadCfg_good hgR, hgB, hgT, if_true] at h
     split at h
@@ -40,7 +53,7 @@ theorem hinv_step {cfg : Cfg} (hg : Good cfg) {m : Nat} {s s' : State} (a : Acti
         split at h
         · rename_i d fs hf
           cases h
-          apply hinv_move (t := { s with free := fs }) hI i x (.check d) hx rfl rfl rfl rfl (by simp [hp]) (by simp) (fun _ => 0) (fun _ _ _ _ => rfl)
+          apply hinv_move (t := { s with free := fs }) hI i x (.check d) hx rfl rfl rfl rfl (by simp [hp]) (by simp) rfl (fun _ => 0) (fun _ _ _ _ _ => rfl)
           intro c
           have := holders_free_pop s d fs hf c
           simp only [hp, held_none_start, held_check] <;> omega
@@ -50,7 +63,7 @@ theorem hinv_step {cfg : Cfg} (hg : Good cfg) {m : Nat} {s s' : State} (a : Acti
             cases h
             exact hinv_reserve hI i x hx hp hlim
           · cases h
-            apply hinv_move (t := { s with reqs := s.reqs ++ [s.nextKey], nextKey := s.nextKey + 1 }) hI i x _ hx rfl rfl rfl rfl (by simp [hp]) (by simp) (fun _ => 0) (fun _ _ _ _ => rfl)
+            apply hinv_move (t := { s with reqs := s.reqs ++ [s.nextKey], nextKey := s.nextKey + 1 }) hI i x _ hx rfl rfl rfl rfl (by simp [hp]) (by simp) rfl (fun _ => 0) (fun _ _ _ _ _ => rfl)
             intro c
             have := holders_reqs s (s.reqs ++ [s.nextKey]) (s.nextKey + 1) c
             simp only [hp, held_none_start, held_none_waiting]
@@ -64,7 +77,7 @@ theorem hinv_step {cfg : Cfg} (hg : Good cfg) {m : Nat} {s s' : State} (a : Acti
       split at h
       · rename_i hp
         cases h
-        exact hinv_create hI i x hx hp _ _ ⟨rfl, rfl⟩ rfl rfl rfl rfl rfl rfl
+        exact hinv_create hI i x hx hp _ _ ⟨rfl, rfl⟩ rfl rfl rfl rfl rfl rfl rfl
       · cases h
     · cases h
   | check i =>
@@ -76,8 +89,8 @@ theorem hinv_step {cfg : Cfg} (hg : Good cfg) {m : Nat} {s s' : State} (a : Acti
         split at h
         · rename_i hd
           cases h
-          apply hinv_move hI i x .start hx rfl rfl rfl rfl (by simp [hp]) (by simp) (fun c => if d = c then 1 else 0)
-          · intro c cn hcn hdd
+          apply hinv_move hI i x .start hx rfl rfl rfl rfl (by simp [hp]) (by simp) rfl (fun c => if d = c then 1 else 0)
+          · intro _ c cn hcn hdd
             by_cases hdc : d = c
             · subst hdc
               have := isDead_true hd cn hcn
@@ -85,7 +98,7 @@ theorem hinv_step {cfg : Cfg} (hg : Good cfg) {m : Nat} {s s' : State} (a : Acti
             · simp [hdc]
           · intro c; simp only [hp, held_none_start, held_check] <;> omega
         · cases h
-          apply hinv_move hI i x (.using d) hx rfl rfl rfl rfl (by simp [hp]) (by simp) (fun _ => 0) (fun _ _ _ _ => rfl)
+          apply hinv_move hI i x (.using d) hx rfl rfl rfl rfl (by simp [hp]) (by simp) rfl (fun _ => 0) (fun _ _ _ _ _ => rfl)
           intro c; simp only [hp, held_using, held_check] <;> omega
       · cases h
     · cases h
@@ -102,7 +115,7 @@ theorem hinv_step {cfg : Cfg} (hg : Good cfg) {m : Nat} {s s' : State} (a : Acti
             simp only at h
             split at h
             · cases h
-              apply hinv_handOut hg1 hI i x d hx rfl rfl rfl rfl (by simp [hp])
+              apply hinv_handOut hg1 hI i x d hx rfl rfl rfl rfl (by simp [hp]) rfl
               intro c; simp only [hp, held_creating] <;> omega
             · cases h
           | dead =>
@@ -110,8 +123,8 @@ theorem hinv_step {cfg : Cfg} (hg : Good cfg) {m : Nat} {s s' : State} (a : Acti
             split at h
             · rename_i hd
               cases h
-              apply hinv_move hI i x .start hx rfl rfl rfl rfl (by simp [hp]) (by simp) (fun c => if d = c then 1 else 0)
-              · intro c cn' hcn' hdd
+              apply hinv_move hI i x .start hx rfl rfl rfl rfl (by simp [hp]) (by simp) rfl (fun c => if d = c then 1 else 0)
+              · intro _ c cn' hcn' hdd
                 by_cases hdc : d = c
                 · subst hdc
                   rw [hcn] at hcn'; cases hcn'
@@ -134,12 +147,21 @@ theorem hinv_step {cfg : Cfg} (hg : Good cfg) {m : Nat} {s s' : State} (a : Acti
                   have := hI.one d
                   simp only [holders] at this
                   omega
-              apply hinv_move (t := { s with conns := s.conns.set d { cn with orphan := true } }) hI i x .done hx rfl rfl (map_dead_set hcn rfl) rfl (by simp [hp]) (by simp) (fun _ => 0) (fun _ _ _ _ => rfl)
+              apply hinv_move (t := { s with conns := s.conns.set d { cn with orphan := true } }) hI i x .done hx rfl rfl (map_dead_set hcn rfl) rfl (by simp [hp]) (by simp) rfl (fun _ => 0) (fun _ _ _ _ _ => rfl)
               intro c
               have := holders_conn_set s d cn { cn with orphan := true } hcn c
               simp only [hp, held_none_done, held_creating]
               simp [hno] at this
               omega
+            · cases h
+          | dc =>
+            simp only at h
+            split at h
+            · rename_i hcl
+              cases h
+              apply hinv_move hI i x .done hx rfl rfl rfl rfl (by simp [hp]) (by simp) rfl (fun c => if d = c then 1 else 0)
+              · intro hc; rw [hcl] at hc; cases hc
+              · intro c; simp only [hp, held_none_done, held_creating] <;> omega
             · cases h
         · cases h
       · cases h
@@ -156,7 +178,7 @@ theorem hinv_step {cfg : Cfg} (hg : Good cfg) {m : Nat} {s s' : State} (a : Acti
           split at h
           · rename_i d rest htk
             cases h
-            apply hinv_handOut (t := { s with inbox := rest }) hg1 hI i x d hx rfl rfl rfl rfl (by simp [hp])
+            apply hinv_handOut (t := { s with inbox := rest }) hg1 hI i x d hx rfl rfl rfl rfl (by simp [hp]) rfl
             intro c
             have := holders_inbox_take s k d rest htk c
             simp only [hp, held_none_waiting]
@@ -166,14 +188,21 @@ theorem hinv_step {cfg : Cfg} (hg : Good cfg) {m : Nat} {s s' : State} (a : Acti
           simp only at h
           split at h
           · cases h
-            apply hinv_move hI i x _ hx rfl rfl rfl rfl (by simp [hp]) (by simp) (fun _ => 0) (fun _ _ _ _ => rfl)
+            apply hinv_move hI i x _ hx rfl rfl rfl rfl (by simp [hp]) (by simp) rfl (fun _ => 0) (fun _ _ _ _ _ => rfl)
             intro c; simp only [hp, held_none_waiting, held_none_giveup] <;> omega
           · cases h
         | ctx =>
           simp only at h
           split at h
           · cases h
-            apply hinv_move hI i x _ hx rfl rfl rfl rfl (by simp [hp]) (by simp) (fun _ => 0) (fun _ _ _ _ => rfl)
+            apply hinv_move hI i x _ hx rfl rfl rfl rfl (by simp [hp]) (by simp) rfl (fun _ => 0) (fun _ _ _ _ _ => rfl)
+            intro c; simp only [hp, held_none_waiting, held_none_giveup] <;> omega
+          · cases h
+        | dc =>
+          simp only at h
+          split at h
+          · cases h
+            apply hinv_move hI i x _ hx rfl rfl rfl rfl (by simp [hp]) (by simp) rfl (fun _ => 0) (fun _ _ _ _ _ => rfl)
             intro c; simp only [hp, held_none_waiting, held_none_giveup] <;> omega
           · cases h
       · cases h
@@ -188,7 +217,7 @@ theorem hinv_step {cfg : Cfg} (hg : Good cfg) {m : Nat} {s s' : State} (a : Acti
         · -- nothing in the channel
           split at h
           · cases h
-            apply hinv_move (t := { s with reqs := s.reqs.erase k }) hI i x _ hx rfl rfl rfl rfl (by simp [hp]) (by cases w <;> simp) (fun _ => 0) (fun _ _ _ _ => rfl)
+            apply hinv_move (t := { s with reqs := s.reqs.erase k }) hI i x _ hx rfl rfl rfl rfl (by simp [hp]) (by cases w <;> simp) rfl (fun _ => 0) (fun _ _ _ _ _ => rfl)
             intro c
             have := holders_reqs' s (s.reqs.erase k) c
             cases w <;> simp only [hp, held_none_start, held_none_done, held_none_giveup] <;> omega
@@ -200,7 +229,7 @@ theorem hinv_step {cfg : Cfg} (hg : Good cfg) {m : Nat} {s s' : State} (a : Acti
             simp only at h
             split at h
             · cases h
-              apply hinv_handOut (t := { s with reqs := s.reqs.erase k, inbox := rest }) hg1 hI i x d hx rfl rfl rfl rfl (by simp [hp])
+              apply hinv_handOut (t := { s with reqs := s.reqs.erase k, inbox := rest }) hg1 hI i x d hx rfl rfl rfl rfl (by simp [hp]) rfl
               intro c
               have := holders_inbox_take s k d rest htk' c
               simp only [hp, held_none_giveup]
@@ -211,9 +240,9 @@ theorem hinv_step {cfg : Cfg} (hg : Good cfg) {m : Nat} {s s' : State} (a : Acti
             split at h
             · rename_i s3 hrel
               cases h
-              obtain ⟨hh3, hm3, ht3, hc3, hcal3, _⟩ := release_spec hrel
-              apply hinv_move hI i x .done (by rw [hcal3]; exact hx) hm3 ht3 (by rw [hc3]) (by simp only [nReserved, hcal3]) (by simp [hp]) (by simp) (fun _ => 0)
-                (fun _ _ _ _ => rfl)
+              obtain ⟨hh3, hm3, ht3, hc3, hcal3, _, hcl3⟩ := release_spec hrel
+              apply hinv_move hI i x .done (by rw [hcal3]; exact hx) hm3 ht3 (by rw [hc3]) (by simp only [nReserved, hcal3]) (by simp [hp]) (by simp) hcl3 (fun _ => 0)
+                (fun _ _ _ _ _ => rfl)
               intro c
               have e1 := hh3 c
               have e2 := holders_inbox_take s k d rest htk' c
@@ -250,9 +279,9 @@ theorem hinv_step {cfg : Cfg} (hg : Good cfg) {m : Nat} {s s' : State} (a : Acti
             obtain ⟨cn, hcn⟩ := hex
             obtain ⟨y, hy, hyd⟩ := markDead_conn s d cn hcn
             have hI1 := hinv_markDead hI d
-            apply hinv_move hI1 i x .start (by rw [markDead_callers]; exact hx) rfl rfl rfl rfl (by simp [hp]) (by simp)
+            apply hinv_move hI1 i x .start (by rw [markDead_callers]; exact hx) rfl rfl rfl rfl (by simp [hp]) (by simp) rfl
               (fun c => if d = c then 1 else 0)
-            · intro c cn' hcn' hdd
+            · intro _ c cn' hcn' hdd
               by_cases hdc : d = c
               · subst hdc
                 rw [hy] at hcn'; cases hcn'
@@ -263,9 +292,9 @@ theorem hinv_step {cfg : Cfg} (hg : Good cfg) {m : Nat} {s s' : State} (a : Acti
         · split at h
           · rename_i s1 hrel
             cases h
-            obtain ⟨hh1, hm1, ht1, hc1, hcal1, _⟩ := release_spec hrel
-            apply hinv_move hI i x .done (by rw [hcal1]; exact hx) hm1 ht1 (by rw [hc1]) (by simp only [nReserved, hcal1]) (by simp [hp]) (by simp) (fun _ => 0)
-              (fun _ _ _ _ => rfl)
+            obtain ⟨hh1, hm1, ht1, hc1, hcal1, _, hcl1⟩ := release_spec hrel
+            apply hinv_move hI i x .done (by rw [hcal1]; exact hx) hm1 ht1 (by rw [hc1]) (by simp only [nReserved, hcal1]) (by simp [hp]) (by simp) hcl1 (fun _ => 0)
+              (fun _ _ _ _ _ => rfl)
             intro c
             have := hh1 c
             simp only [hp, held_none_done, held_using]
@@ -283,9 +312,9 @@ theorem hinv_step {cfg : Cfg} (hg : Good cfg) {m : Nat} {s s' : State} (a : Acti
         have := holders_conn_set s d cn { cn with ready := true } hcn c
         simp only at this
         omega
-      apply hinv_of_le (s' := { s with conns := s.conns.set d { cn with ready := true } }) hI rfl rfl (map_dead_set hcn rfl) rfl
+      apply hinv_of_le (s' := { s with conns := s.conns.set d { cn with ready := true } }) hI rfl rfl (map_dead_set hcn rfl) rfl rfl
       · intro c; rw [hh c]; exact Nat.le_refl _
-      · intro c _ _ _; exact hh c
+      · intro _ c _ _ _; exact hh c
     · cases h
   | die d =>
     simp only [step, markDeadCfg_good hgR, hgB, hgT, if_true] at h
@@ -311,9 +340,9 @@ theorem hinv_step {cfg : Cfg} (hg : Good cfg) {m : Nat} {s s' : State} (a : Acti
         rw [e]
         simp only at this
         omega
-      apply hinv_of_le (s' := { s with callers := s.callers.set i { x with cancelled := true } }) hI rfl rfl rfl hresc
+      apply hinv_of_le (s' := { s with callers := s.callers.set i { x with cancelled := true } }) hI rfl rfl rfl hresc rfl
       · intro c; rw [hh c]; exact Nat.le_refl _
-      · intro c _ _ _; exact hh c
+      · intro _ c _ _ _; exact hh c
     · cases h
   | bg d rel ko =>
     simp only [step, markDeadCfg_good hgR, hgB, hgT, if_true] at h
@@ -331,29 +360,31 @@ theorem hinv_step {cfg : Cfg} (hg : Good cfg) {m : Nat} {s s' : State} (a : Acti
         | true =>
           simp only [if_true] at h
           split at h
-          · obtain ⟨hh2, hm2, ht2, hc2, hcal2, _⟩ := release_spec h
+          · obtain ⟨hh2, hm2, ht2, hc2, hcal2, _, hcl2⟩ := release_spec h
             have hh : ∀ c, holders s' c = holders s c := by
               intro c
               have := hh2 c
               have := e1 c
               omega
-            apply hinv_of_le hI hm2 ht2 (by rw [hc2]; exact map_dead_set hcn rfl) (by simp only [nReserved, hcal2])
+            apply hinv_of_le hI hm2 ht2 (by rw [hc2]; exact map_dead_set hcn rfl) (by simp only [nReserved, hcal2]) hcl2
             · intro c; rw [hh c]; exact Nat.le_refl _
-            · intro c _ _ _; exact hh c
+            · intro _ c _ _ _; exact hh c
           · cases h
         | false =>
           simp only [Bool.false_eq_true, if_false] at h
           split at h
           · rename_i hd
             cases h
-            apply hinv_of_le (s' := { s with conns := s.conns.set d { cn with orphan := false } }) hI rfl rfl (map_dead_set hcn rfl) rfl
+            apply hinv_of_le (s' := { s with conns := s.conns.set d { cn with orphan := false } }) hI rfl rfl (map_dead_set hcn rfl) rfl rfl
             · intro c; have := e1 c; omega
-            · intro c cn' hcn' hdd
+            · intro hcl c cn' hcn' hdd
               have := e1 c
               by_cases hdc : d = c
               · subst hdc
                 rw [hcn] at hcn'; cases hcn'
-                rw [hd.1] at hdd; cases hdd
+                rcases hd.1 with hd1 | hd1
+                · rw [hd1] at hdd; cases hdd
+                · rw [hcl] at hd1; cases hd1
               · simp [hdc] at this; omega
           · cases h
       · cases h
